@@ -183,14 +183,15 @@ theorem T_ret_iff {sh : Shared K V} {t : Tid} {r : Res K V} {p : APc K V} (hr : 
 
 omit [Inhabited V] in
 theorem T_ret_pairs_iff {sh : Shared K V} {t : Tid} {l : List (K × V)} {p : APc K V} :
-    T sh t (.ret (.pairs l)) p ↔ IsIdle p ∧ ¬ Own sh t := by
+    T sh t (.ret (.pairs l)) p ↔ IsIdle p ∧ ¬ Own sh t ∧ (l.map Prod.fst).Nodup := by
   simp only [T]
 
 omit [Inhabited V] in
 theorem T_rangeNext_iff {sh : Shared K V} {t : Tid} {todo : List (K × EId)} {acc : List (K × V)} {p : APc K V} :
-    T sh t (rangeNext todo acc) p ↔ IsIdle p ∧ ¬ Own sh t := by
-  unfold rangeNext
-  split <;> simp only [T]
+    T sh t (rangeNext todo acc) p ↔ IsIdle p ∧ ¬ Own sh t ∧ RangeHold sh todo acc := by
+  cases todo with
+  | nil => rw [rangeNext_nil, RangeHold.nil_iff]; simp only [T]
+  | cons q todo => rw [rangeNext_cons]; simp only [T]
 
 omit [Inhabited V] in
 theorem noneRes_ne_pairs (d : Bool) (l : List (K × V)) : (noneRes d : Res K V) ≠ .pairs l := by
@@ -306,7 +307,7 @@ theorem stepOK_ret {r : Res K V} (hR : R s a) (ht : t < s.pcs.length) (hpc : s.p
         (obs_witness _ _ _ _) (SameData.refl _) hR.g.nofault (MuStep.same _ _)
       · rw [witness_pcs_res_pairs]
         simp only [T]
-        exact ⟨isIdle_observePc.mpr hT.1, hT.2⟩
+        exact ⟨isIdle_observePc.mpr hT.1, hT.2.1⟩
       · intro p hp; rw [hpc] at hp; cases hp
       · intro e he; simp [unlinkedPc] at he
   · exact absurd hpc (h r)
@@ -760,7 +761,7 @@ theorem stepOK_rangeRead1 (hR : R s a) (ht : t < s.pcs.length) (hpc : s.pc t = .
     obtain ⟨rfl, rfl⟩ := hex
     refine R_quiet_same hR ht hlin ?_ (hunp _) (hunl _ (rangeNext_ne_ladMiss _ _))
     rw [T_rangeNext_iff]
-    exact hT
+    exact ⟨hT.1, hT.2, RangeHold.snapshot rfl hR.g.keysR hR.g.boundR⟩
 
 theorem stepOK_rangeLock (hR : R s a) (ht : t < s.pcs.length) (hpc : s.pc t = .rangeLock) :
     StepOK menu s a t := by
@@ -794,24 +795,25 @@ theorem stepOK_rangeLoad {todo : List (K × EId)} {acc : List (K × V)} {k' : K}
   intro sh' pc' hex
   rw [hpc] at hex
   simp only [exec] at hex
-  have key : ∀ acc' : List (K × V), R (setPc s t s.sh (rangeNext todo acc')) (witness s t none a) := by
-    intro acc'
+  have key : ∀ acc' : List (K × V), RangeHold s.sh todo acc' →
+      R (setPc s t s.sh (rangeNext todo acc')) (witness s t none a) := by
+    intro acc' hacc
     refine R_quiet_same hR ht hlin ?_ (hunp _) (hunl _ (rangeNext_ne_ladMiss _ _))
     rw [T_rangeNext_iff]
-    exact hT
+    exact ⟨hT.1, hT.2.1, hacc⟩
   cases hp : getP s.sh e' with
   | val i w =>
     simp only [hp, Option.some.injEq, Prod.mk.injEq] at hex
     obtain ⟨rfl, rfl⟩ := hex
-    exact key _
+    exact key _ (hT.2.2.push w)
   | nil =>
     simp only [hp, Option.some.injEq, Prod.mk.injEq] at hex
     obtain ⟨rfl, rfl⟩ := hex
-    exact key _
+    exact key _ hT.2.2.skip
   | expunged =>
     simp only [hp, Option.some.injEq, Prod.mk.injEq] at hex
     obtain ⟨rfl, rfl⟩ := hex
-    exact key _
+    exact key _ hT.2.2.skip
 
 /-! #### loop heads (`picks`) -/
 
@@ -845,7 +847,7 @@ theorem stepOK_rangePick {todo : List (K × EId)} {acc : List (K × V)}
   obtain ⟨p, hp, rfl⟩ := mem_picks_rangePick.mp hx
   refine R_quiet_same hR ht hlin ?_ ?_ ?_
   · simp only [T]
-    exact hT
+    exact ⟨hT.1, hT.2.1, hT.2.2.pick hp⟩
   · intro q hq; rw [hpc] at hq; cases hq
   · intro e he; simp [unlinkedPc] at he
 
